@@ -1,7 +1,8 @@
 (* Bridge between a kernel regenerated from the source under test on every run (Gen/KRefCounter.v) and the kernel the
    hand-written model uses.  An edit to the code that changes the expression changes the generated file, and these
-   proofs no longer check. *)
+   proofs no longer check.  The proofs do not depend on how the source spells the computation. *)
 From Coq Require Import ZArith Bool Lia Arith List.
+From SZ Require Import Base.BridgeTac.
 From SZ Require Import Gen.KRefCounter.
 From SZ Require Import Base.Values.
 From SZ Require Import Sync.Nodes.
@@ -11,22 +12,21 @@ Import ListNotations.
 
 (* ---- RefCounter ---------------------------------------------------------------------------------------- *)
 Lemma bridge_rc_retain_sync w r n : cnt (retain1 w r n) r = gen_rc_retain (cnt w r) n.
-Proof. cbn. rewrite Nat.eqb_refl. reflexivity. Qed.
+Proof. unfold gen_rc_retain. cbn. rewrite Nat.eqb_refl. zkernel. Qed.
 
 Lemma bridge_rc_release_sync w r n :
   cnt (release1 w r n) r = fst (gen_rc_release (cnt w r) n) /\
   fired (release1 w r n) = if snd (gen_rc_release (cnt w r) n) then fired w ++ [r] else fired w.
 Proof.
-  unfold gen_rc_release. cbn. rewrite Nat.eqb_refl, andb_true_r. split; reflexivity.
+  unfold gen_rc_release. cbn. rewrite Nat.eqb_refl. split; zkernel.
 Qed.
 
 Lemma bridge_rc_retain_async s r n : rcnt (rc_retain1 s r n) r = gen_rc_retain (rcnt s r) n.
-Proof. cbn. rewrite Nat.eqb_refl. reflexivity. Qed.
+Proof. unfold gen_rc_retain. cbn. rewrite Nat.eqb_refl. zkernel. Qed.
 
 Lemma bridge_rc_release_async s r n :
   rcnt (rc_release1 s r n) r = fst (gen_rc_release (rcnt s r) n) /\
   rfired (rc_release1 s r n) = if snd (gen_rc_release (rcnt s r) n) then rfired s ++ [r] else rfired s.
 Proof.
-  unfold gen_rc_release. cbn. rewrite Nat.eqb_refl, andb_true_r. split; reflexivity.
+  unfold gen_rc_release. cbn. rewrite Nat.eqb_refl. split; zkernel.
 Qed.
-
